@@ -501,7 +501,7 @@ class AnyOnEventDefined(Contract):
     params = [("self", "State"), ("event", "Val"), ("transition", "Transition"), ("states", "list[State]")]
     returns = "None"
     modifies = None  # set below
-    properties = ["C09", "C15"]
+    properties = ["C01", "C09", "C15"]  # C01: "the declared machine" includes what from_.any() declares
 
     def pre(self, s, a):
         arr, n = s.sel("list.arr", a.states.e), s.sel("list.len", a.states.e)
@@ -539,9 +539,9 @@ class AnyOnEventDefined(Contract):
         inr = z3.And(k >= 0, k < n)
         return {
             "existing-transitions-kept": z3.ForAll([k, j], z3.Implies(z3.And(inr, j >= 0, j < tn0), z3.Select(ta, j) == z3.Select(ta0, j))),
-            "C09,C15|final-states-and-states-not-reached-yet-get-nothing": z3.ForAll([k], z3.Implies(
+            "C01,C09,C15|final-states-and-states-not-reached-yet-get-nothing": z3.ForAll([k], z3.Implies(
                 z3.And(inr, z3.Or(final, k >= upto)), tn == tn0), patterns=[z3.Select(arr, k)]),
-            "C09,C15|every-non-final-state-gets-exactly-one-copy-from-itself": z3.ForAll([k], z3.Implies(
+            "C01,C09,C15|every-non-final-state-gets-exactly-one-copy-from-itself": z3.ForAll([k], z3.Implies(
                 z3.And(inr, z3.Not(final), k < upto), z3.And(
                     tn == tn0 + 1, new >= s0["ghost.alloc"], new < s["ghost.alloc"], s.sel("Transition.source", new) == st,
                     s.sel("Transition.target", new) == s0.sel("Transition.target", a.transition.e))), patterns=[z3.Select(arr, k)]),
